@@ -12,7 +12,7 @@ ID = "C19"
 LEVEL = "model_checking"
 RULE = (
     "every history of length <=4 (quick) / <=5 (thorough) over 7 operations {protect(P1,SID1), protect(P2,SID1), protect(P1,SID2), unprotect(latest output), protect in public-key mode via the "
-    "reference DC with a DH root key, same with ECDH_P256, protect naming a root key whose seed keys come from the DC and are then cached}; all tuples of 2..3 such protects IN FLIGHT CONCURRENTLY (async, one shared cache, replies released FIFO/LIFO) (repeating an operation = identical arguments) x cache {shared along the history, fresh per call} x {sync, async} x clock {fixed, advancing one L2 "
+    "reference DC with a DH root key, same with ECDH_P256, same with a DH root key whose private key length (509 bits) is not a multiple of 8, the application reseeding the interpreter-wide `random` module to a constant, protect naming a root key whose seed keys come from the DC and are then cached}; all tuples of 2..3 such protects IN FLIGHT CONCURRENTLY (async, one shared cache, replies released FIFO/LIFO) (repeating an operation = identical arguments) x cache {shared along the history, fresh per call} x {sync, async} x clock {fixed, advancing one L2 "
     "interval per call}; each history is run under a logging entropy source that never repeats a block (os.urandom and AESGCM.generate_key seams) and again under the real sources. From every emitted blob "
     "the GCM nonce, key_info (nonce / ephemeral public key), the CEK (unwrapped with the reference KEK) and the ciphertext are extracted. Oracle: within a history all CEKs, all GCM nonces and all key_infos "
     "are pairwise distinct, equal plaintexts give different ciphertexts, GCM nonce is 12 bytes and the key-id nonce 32. Threads: two OS threads calling the sync protect API at once on one shared cache under a controlled scheduler (baton; scheduling point = every source line of dpapi_ng): every schedule with <=1 preemption (thorough: <=2 at function-entry granularity), same oracle. state = history prefix / schedule; transition = one API call / one scheduling point. Non-trivial = histories with >= 2 protects."
@@ -33,7 +33,8 @@ def world(seed: int):
     if _w.get("seed") != seed:
         d = seams.Drbg(("C19", seed))
         _w.update(seed=seed, rkN=seams.make_root(d, "SHA512"), rkD=seams.make_root(d, "SHA256", "DH"), rkE=seams.make_root(d, "SHA384", "ECDH_P256"), rkS=seams.make_root(d, "SHA256"))
-        _w["by_id"] = {r.rkid: r for r in (_w["rkN"], _w["rkD"], _w["rkE"], _w["rkS"])}
+        _w["rkG"] = seams.make_root(d, "SHA256", "DH")._replace(priv_len=509)  # a private-key bit length that is not a multiple of 8
+        _w["by_id"] = {r.rkid: r for r in (_w["rkN"], _w["rkD"], _w["rkE"], _w["rkS"], _w["rkG"])}
     return _w
 
 
@@ -45,7 +46,7 @@ def run_history(w, hist: str, shared: bool, api: str, advancing: bool, real_entr
     """-> list of (op, status, value)"""
     import dpapi_ng
 
-    dc = refdc.DC([w["rkD"], w["rkE"], w["rkN"], w["rkS"]], now=NOW, authorised=False)
+    dc = refdc.DC([w["rkD"], w["rkE"], w["rkN"], w["rkS"], w["rkG"]], now=NOW, authorised=False)
     dc.authorised_roots = {w["rkS"].rkid}
     cache = seams.make_cache(w["rkN"])
 
@@ -54,6 +55,7 @@ def run_history(w, hist: str, shared: bool, api: str, advancing: bool, real_entr
         seams.load_root(c, w["rkD"])
         seams.load_root(c, w["rkE"])
         seams.load_root(c, w["rkS"])
+        seams.load_root(c, w["rkG"])
         return c
 
     cache_u = all_roots()  # unprotect needs the root key of whichever blob came last (public-key blobs cannot be opened by the unauthorised caller)
@@ -63,6 +65,10 @@ def run_history(w, hist: str, shared: bool, api: str, advancing: bool, real_entr
 
     def go():
         nonlocal last_blob, cache, cache_u
+        if "R" in hist:
+            import random
+
+            random.seed(20240229)  # the same fixed state at the start of the history as after every R: independent of what ran before in this process
         for i, op in enumerate(hist):
             if not shared:
                 cache = seams.make_cache(w["rkN"])
@@ -72,6 +78,13 @@ def run_history(w, hist: str, shared: bool, api: str, advancing: bool, real_entr
             kw = dict(server="dc", username="u", password="p", auth_protocol="ntlm", cache=cache)
             with seams.clock(ft):
                 try:
+                    if op == "R":
+                        # the application (or a test runner) puts the interpreter-wide PRNG back into a fixed state
+                        import random
+
+                        random.seed(20240229)
+                        out.append((op, "skip", None))
+                        continue
                     if op == "U":
                         if last_blob is None:
                             out.append((op, "skip", None))
@@ -81,7 +94,7 @@ def run_history(w, hist: str, shared: bool, api: str, advancing: bool, real_entr
                         kw["cache"] = cache_u
                     else:
                         f = (dpapi_ng.ncrypt_protect_secret, dpapi_ng.async_ncrypt_protect_secret)[api == "async"]
-                        pt, sid, rk = {"A": (P1, SID1, "rkN"), "B": (P2, SID1, "rkN"), "C": (P1, SID2, "rkN"), "D": (P1, SID1, "rkD"), "E": (P1, SID1, "rkE"), "F": (P1, SID1, "rkS")}[op]
+                        pt, sid, rk = {"A": (P1, SID1, "rkN"), "B": (P2, SID1, "rkN"), "C": (P1, SID2, "rkN"), "D": (P1, SID1, "rkD"), "E": (P1, SID1, "rkE"), "F": (P1, SID1, "rkS"), "G": (P1, SID1, "rkG")}[op]
                         args = (pt, sid)
                         kw["root_key_identifier"] = w[rk].rkid
                     v = f(*args, **kw) if api == "sync" else vloop.run(f(*args, **kw))
@@ -254,7 +267,7 @@ def threads_explore(acc, w, ops: str, bound: int, part: int, parts: int, coarse:
 
 
 def shards(tier: str, seed: int):
-    out = [["long", api] for api in ("sync", "async")] + [["conc"]]
+    out = [["long", api] for api in ("sync", "async")] + [["conc"]] + [["extra", api] for api in ("sync", "async")]
     for ops in (THREAD_PAIRS[:2] if tier == "quick" else THREAD_PAIRS):
         for part in range(THREAD_PARTS):
             out.append(["threads", ops, 1, part, THREAD_PARTS, False])
@@ -290,6 +303,22 @@ def run_shard(shard, tier, seed, acc) -> None:
                         acc.states += 1
                         acc.transitions += k
         acc.sample({"concurrent async protects on one cache": "all tuples of 2..3 calls over {A,F,D,E}", "delivery": ["FIFO", "LIFO"]})
+        return
+    if shard[0] == "extra":
+        # histories over {A, G (public-key mode, DH root key with a 509-bit private key), R (global PRNG reseeded to a constant)}
+        n = 0
+        for k in range(2, 5 if tier == "quick" else 6):
+            for h in itertools.product("AGR", repeat=k):
+                hist = "".join(h)
+                if sum(c != "R" for c in hist) < 2:
+                    continue
+                for real in (False, True):
+                    judge(acc, w, hist, True, shard[1], False, real, ["shard", shard, tier])
+                    n += 1
+                    acc.ev()
+                    acc.states += 1
+                    acc.transitions += len(hist)
+        acc.sample({"extra alphabet": {"A": "protect(P1,SID1)", "G": "public-key mode, DH root key with a 509-bit private key", "R": "random.seed(constant)"}, "histories": n})
         return
     if shard[0] == "long":
         # one long history (N protects with identical / alternating arguments, far beyond the depth bound) under both entropy sources
